@@ -253,8 +253,13 @@ def _is(du, val, V):
     return V.fork(du == val)
 
 
+import contracts.mps_values as MV
+from contracts.mps_values import h_env3_refresh, h_overlap_values, h_mpo_values, h_env3_values, h_env_sum_project_values, h_measure_values
+FUNCTIONS = list(FUNCTIONS) + [f_ for f_ in MV.FUNCTIONS if f_ not in FUNCTIONS]
+
+
 def units(tier):
-    U = []
+    U = MV.units(tier, 'C09')
     th = tier == 'thorough'
     for order in ('2nd', '4th'):
         for yi in (False, True):
